@@ -506,7 +506,7 @@ class C18(Prop):
         for c in hostlist_cases():
             yield c
         import os
-        per_rm = 100 if tier == 'quick' else 2200
+        per_rm = 220 if tier == 'quick' else 2200
         if os.environ.get('VERIF_C18_PER_RM'):          # debugging aid: size of the generated stream
             per_rm = int(os.environ['VERIF_C18_PER_RM'])
         for k in range(per_rm):
